@@ -327,6 +327,19 @@ func Eq(a, b *Term) *Term {
 	if strLits[a] && strLits[b] {
 		return False // distinct literals (a != b pointer-wise, interned by content)
 	}
+	// the object of a local variable whose address never escapes cannot be
+	// denoted by any other term (no pointer to it is ever stored or passed)
+	if (privateObjLeaves[a] && b.Op != "ite") || (privateObjLeaves[b] && a.Op != "ite") {
+		return False
+	}
+	// fresh object identities are pairwise distinct and differ from literal ids
+	if objLeaves[a] && (objLeaves[b] || b.IntV != nil || preObjLeaves[b]) || objLeaves[b] && (a.IntV != nil || preObjLeaves[a]) {
+		return False
+	}
+	// x + c1 = x + c2, x = x + c
+	if r := offsetEq(a, b); r != nil {
+		return r
+	}
 	if a.id > b.id {
 		a, b = b, a
 	}
@@ -334,6 +347,9 @@ func Eq(a, b *Term) *Term {
 }
 
 var strLits = map[*Term]bool{}
+var objLeaves = map[*Term]bool{}
+var preObjLeaves = map[*Term]bool{}
+var privateObjLeaves = map[*Term]bool{}
 
 func Distinct(a, b *Term) *Term { return Not(Eq(a, b)) }
 
